@@ -646,13 +646,9 @@ UPGRADER:
 			}
 		case stateBodyTrailerHeaderValue:
 			switch c {
-			case ' ':
-				if p.headerValue == "" {
-					p.headerValue = string(data[start:i])
-				}
 			case '\r':
 				if p.headerValue == "" {
-					p.headerValue = string(data[start:i])
+					p.headerValue = strings.TrimRight(string(data[start:i]), " ")
 				}
 				if len(p.trailer) == 0 {
 					return fmt.Errorf("invalid trailer '%v'", p.headerKey)
